@@ -21,7 +21,7 @@ def gen_cases(rng, tier):
     n = {'quick': 400, 'thorough': 8000, 'search': 300}[tier]
     cases = []
     while len(cases) < n:
-        kind = rng.choice(['cubic', 'ortho', 'tri'])
+        kind = rng.choice(['cubic', 'ortho', 'hex', 'tri'])
         m = synth.int_lattice(rng, kind)
         ns = rng.randint(2, 6)
         pts = set()
